@@ -269,7 +269,7 @@ func (p *Parser) parseBuffer(buf []byte, last bool) (err error) {
 			switch p.mode[256] {
 			case 't':
 				switch b {
-				case ':', '[', '{', '/', '"', '\'':
+				case ':', ',', '[', '{', '/', '"', '\'':
 					// A token continued from an earlier buffer ends here. Handle
 					// that the same way the scan in tokenStart does.
 					p.addToken(off)
